@@ -270,6 +270,12 @@ def build(shape, gin, lists_on='target'):
     kw = dict(reg_kwargs)
     if gin_module is None:
       kw['module'] = modname
+    if shape.get('plain_function_first') and kind == 'boundmethod':
+      # the plain function behind the bound method is a configurable of its own (with `self` as an
+      # ordinary parameter), registered and looked at first
+      plain_kw = {k: v for k, v in kw.items() if k not in ('allowlist', 'denylist')}
+      gin.external_configurable(getattr(type(inst), fname), name=name + '_unbound', **plain_kw)
+      gin.bind_parameter(f"{plain_kw['module']}.{name}_unbound.self", 'SELF')
     if api == 'register':
       gin.register(name, **kw)(target)
       cfg = gin.get_configurable(target)
